@@ -3,5 +3,7 @@ import MiniconfVerif.Props.C03
 #print axioms MiniconfVerif.C03.yielded_target_is_transcoding
 #print axioms MiniconfVerif.C03.targets_accept
 #print axioms MiniconfVerif.C03.leaves_successor_orbit
+#print axioms MiniconfVerif.C03.leaves_sorted
+#print axioms MiniconfVerif.C03.leaf_iff_enumerated
 #print axioms MiniconfVerif.C03.count_eq
 #print axioms MiniconfVerif.C03.state_keys_never_too_long
